@@ -70,6 +70,7 @@ impl<M: Eq + Hash + Copy + Debug, T: Clone> Ruler<M, T> {
 
     /// Remove all rules identified by `mark`.
     pub fn remove(&mut self, mark: M) {
+        self.compiled = OnceCell::new();
         self.deps.retain(|dep| !dep.marks.contains(&mark));
     }
 
